@@ -16,7 +16,8 @@ from . import wire, msm, msm_pairs
 
 LEVEL_TEXT = ('Static analysis (transcript trace, def-use of the verifier\'s accumulators, guard normal forms). Decides that each promise is bound into the '
               'transcript, subtracted by the prover before decomposition, re-added by the verifier on the value generator with exactly the weight of its '
-              'own commitment, and range-checked for every statement of a batch. Does not decide the arithmetic conclusion promise <= value < promise + 2^bits.')
+              'own commitment, and range-checked for every statement of a batch. Does not decide the arithmetic conclusion promise <= value < promise + 2^bits.'
+              ' Also decides that the statement constructor stores the promise vector unadjusted.')
 ASSUMPTIONS = ['Scalar::from(u64) embeds the integer', 'the two absorption sites and the H-scalar site are the only places the promise enters (enumerated from the def-use graph)']
 RULE_TEXT = 'one obligation per clause and role; non-trivial = decided from a data term, accumulator event or guard'
 
